@@ -1,137 +1,350 @@
 import Bptk.Core.C16
 /-!
-C16 — property theorems.  Quantifier: every number of instances, every request sequence addressed to them
-(= every interleaving, at request granularity, of the per-instance request lists), every instance.
+C16 — property theorems.  Quantifier: every number of initial instances, with or without an external state
+adapter, every request sequence (= every interleaving, at request granularity, of the per-owner request lists;
+owners: every instance id and the server-level object that `/run`, `/equations`, `/agents` use), every owner.
+Requests: begin-session (with settings), run-step (with settings), session-results, end-session, keep-alive, stop,
+timeout, instance creation during the history, `/run` (with settings), `/equations`, `/agents`; an instance that
+timed out is restored lazily from its externalised state by its next request.
 -/
 namespace Bptk.C16
 
-/-- The full property: the responses instance `i` gives in an interleaved history are those it gives when
-the requests to all other instances (including their stop and their timeout) are never made. -/
+/-- The full property: the responses an owner `t` (an instance, or the server-level object) gets in an
+interleaved history are those it gets when the requests of all other owners (including their creation, stop,
+timeout and lazy restoration) are never made. -/
 def C16_full (c : Cfg) : Prop :=
-  ∀ (k : Nat) (ops : List (Nat × Req)) (i : Nat),
-    respsOf i (resps c (Server.init k) ops) = respsOf i (resps c (Server.init k) (proj i ops))
+  ∀ (k : Nat) (ad : Bool) (ops : List (Nat × Req)) (t : Option Nat),
+    respsOf t (resps c (Server.initAd k ad) ops) = respsOf t (resps c (Server.initAd k ad) (proj t ops))
 
 def Req.noSetting : Req → Bool
   | .runStep (some _) => false
+  | .beginSession (some _) => false
+  | .run (some _) => false
   | _ => true
 
-/-- with nothing shared, a request's response and the instance's next state do not depend on the process-wide cell. -/
-theorem stepInst_indep (c : Cfg) (h : c.instancesShareNothing = true) (g g' : Int) (x : Inst) (r : Req) :
-    (stepInst c g x r).2 = (stepInst c g' x r).2 := by
-  cases r <;> simp only [stepInst, runStep, h, if_true] <;> (try split) <;> (try split) <;> rfl
+theorem applySetting_indep (c : Cfg) (h : c.instancesShareNothing = true) (g g' : Int) (k : Int) (s : Option Int) :
+    (applySetting c g k s).2 = (applySetting c g' k s).2 := by
+  simp [applySetting, h]
 
-/-- a request without a setting never writes the process-wide cell. -/
-theorem stepInst_g (c : Cfg) (g : Int) (x : Inst) (r : Req) (h : r.noSetting = true) : (stepInst c g x r).1 = g := by
+theorem applySetting_g (c : Cfg) (h : c.instancesShareNothing = true) (g : Int) (k : Int) (s : Option Int) :
+    (applySetting c g k s).1 = g := by
+  simp [applySetting, h]
+
+theorem applySetting_none (c : Cfg) (g : Int) (k : Int) : (applySetting c g k none).1 = g := by
+  simp only [applySetting]; split <;> rfl
+
+theorem revive_indep (c : Cfg) (h : c.instancesShareNothing = true) (ad : Bool) (g g' : Int) (x : Inst) :
+    (revive c ad g x).2 = (revive c ad g' x).2 := by
+  simp only [revive]
+  split
+  · rfl
+  · split
+    · split
+      · simp [applySetting, h]
+      · rfl
+    · rfl
+
+theorem revive_g (c : Cfg) (h : c.instancesShareNothing = true) (ad : Bool) (g : Int) (x : Inst) :
+    (revive c ad g x).1 = g := by
+  simp only [revive]
+  split
+  · rfl
+  · split
+    · split
+      · simp [applySetting, h]
+      · rfl
+    · rfl
+
+/-- without an adapter nothing is ever restored -/
+theorem revive_noAd (c : Cfg) (g : Int) (x : Inst) : revive c false g x = (g, x) := by
+  simp [revive]
+
+/-- with nothing shared, a request's response and the instance's next state do not depend on the process-wide
+cell, and the cell is not written. -/
+theorem stepInst_indep (c : Cfg) (h : c.instancesShareNothing = true) (ad : Bool) (g g' : Int) (x : Inst) (r : Req) :
+    (stepInst c ad g x r).2 = (stepInst c ad g' x r).2 := by
+  have hr := revive_indep c h ad g g' x
+  have h1 := revive_g c h ad g x
+  have h2 := revive_g c h ad g' x
+  cases r <;> simp only [stepInst, runStep] <;> (try rfl)
+  all_goals rw [hr]
+  all_goals (try split) <;> (try split) <;> simp [applySetting, h]
+
+theorem stepInst_keeps_g (c : Cfg) (h : c.instancesShareNothing = true) (ad : Bool) (g : Int) (x : Inst) (r : Req) :
+    (stepInst c ad g x r).1 = g := by
+  have h1 := revive_g c h ad g x
+  cases r <;> simp only [stepInst, runStep] <;> (try rfl)
+  all_goals (try split) <;> (try split) <;> simp [applySetting, h, h1]
+
+theorem stepOwn_indep (c : Cfg) (h : c.instancesShareNothing = true) (g g' : Int) (x : Inst) (r : Req) :
+    (stepOwn c g x r).2 = (stepOwn c g' x r).2 := by
+  cases r <;> simp [stepOwn, applySetting, h]
+
+theorem stepOwn_keeps_g (c : Cfg) (h : c.instancesShareNothing = true) (g : Int) (x : Inst) (r : Req) :
+    (stepOwn c g x r).1 = g := by
+  cases r <;> simp [stepOwn, applySetting, h]
+
+/-- without an adapter, a request that carries no setting never writes the process-wide cell. -/
+theorem stepInst_g (c : Cfg) (g : Int) (x : Inst) (r : Req) (h : r.noSetting = true) :
+    (stepInst c false g x r).1 = g := by
   cases r with
   | runStep s =>
     cases s with
     | some v => simp [Req.noSetting] at h
-    | none => simp only [stepInst, runStep]; split <;> (try split) <;> simp
-  | _ => simp only [stepInst] <;> (try split) <;> rfl
+    | none =>
+      simp only [stepInst, runStep, revive_noAd]
+      split
+      · split
+        · rfl
+        · exact applySetting_none c g x.knob
+      · rfl
+  | beginSession s =>
+    cases s with
+    | some v => simp [Req.noSetting] at h
+    | none =>
+      simp only [stepInst, revive_noAd]
+      split
+      · exact applySetting_none c g x.knob
+      · rfl
+  | _ => simp only [stepInst, revive_noAd] <;> (try split) <;> rfl
 
-theorem step_other (c : Cfg) (s : Server) (op : Nat × Req) (i : Nat) (h : op.1 ≠ i) :
-    (step c s op).1.insts[i]? = s.insts[i]? := by
+theorem stepOwn_g (c : Cfg) (g : Int) (x : Inst) (r : Req) (h : r.noSetting = true) : (stepOwn c g x r).1 = g := by
+  cases r with
+  | run s =>
+    cases s with
+    | some v => simp [Req.noSetting] at h
+    | none => exact applySetting_none c g x.knob
+  | _ => rfl
+
+theorem stepNone_frame (s : Server) (i : Nat) (r : Req) :
+    (stepNone s i r).1.g = s.g ∧ (stepNone s i r).1.ad = s.ad ∧ (stepNone s i r).1.own = s.own ∧
+    ∀ j, j ≠ i → (stepNone s i r).1.insts j = s.insts j := by
+  cases r <;> simp [stepNone, updFn]
+  intro j hj; simp [hj]
+
+theorem stepNone_local (s s' : Server) (i : Nat) (r : Req) (h : s.insts i = s'.insts i) :
+    (stepNone s i r).2 = (stepNone s' i r).2 ∧ (stepNone s i r).1.insts i = (stepNone s' i r).1.insts i := by
+  cases r <;> simp [stepNone, updFn, h]
+
+/-- a request leaves every other owner's part of the server alone, and never changes whether an adapter exists -/
+theorem step_other (c : Cfg) (s : Server) (op : Nat × Req) (t : Option Nat) (h : owner op ≠ t) :
+    comp t (step c s op).1 = comp t s ∧ (step c s op).1.ad = s.ad := by
   unfold step
-  cases hg : s.insts[op.1]? with
-  | none => rfl
-  | some x => simp [List.getElem?_set, h]
+  by_cases hs : op.2.serverLevel = true
+  · simp only [hs, if_true]
+    refine ⟨?_, by first | rfl | trivial⟩
+    cases t with
+    | none => simp [owner, hs] at h
+    | some i => rfl
+  · simp only [hs]
+    have ho : owner op = some op.1 := by simp [owner, hs]
+    cases hx : s.insts op.1 with
+    | none =>
+      simp only [Bool.false_eq_true, if_false]
+      obtain ⟨_, f2, f3, f4⟩ := stepNone_frame s op.1 op.2
+      refine ⟨?_, f2⟩
+      cases t with
+      | none => simp [comp, f3]
+      | some i =>
+        have : i ≠ op.1 := fun e => h (by rw [ho, e])
+        simp [comp, f4 i this]
+    | some x =>
+      simp only [Bool.false_eq_true, if_false]
+      refine ⟨?_, by first | rfl | trivial⟩
+      cases t with
+      | none => rfl
+      | some i =>
+        have : i ≠ op.1 := fun e => h (by rw [ho, e])
+        simp [comp, updFn, this]
 
-theorem step_g (c : Cfg) (s : Server) (op : Nat × Req) (h : op.2.noSetting = true) : (step c s op).1.g = s.g := by
+/-- locality: the response to a request and its owner's next state are determined by the owner's part of the
+server (plus the shared cell when something is shared). -/
+theorem step_local (c : Cfg) (s s' : Server) (op : Nat × Req)
+    (hc : comp (owner op) s = comp (owner op) s') (had : s.ad = s'.ad)
+    (hg : c.instancesShareNothing = true ∨ s.g = s'.g) :
+    (step c s op).2 = (step c s' op).2 ∧ comp (owner op) (step c s op).1 = comp (owner op) (step c s' op).1 ∧
+    (c.instancesShareNothing = true ∨ (step c s op).1.g = (step c s' op).1.g) := by
   unfold step
-  cases hg : s.insts[op.1]? with
-  | none => rfl
-  | some x => exact stepInst_g c s.g x op.2 h
+  by_cases hs : op.2.serverLevel = true
+  · simp only [hs, if_true]
+    have ho : owner op = none := by simp [owner, hs]
+    rw [ho] at hc ⊢
+    simp only [comp, Option.some.injEq] at hc
+    rw [hc]
+    rcases hg with hg | hg
+    · have := stepOwn_indep c hg s.g s'.g s'.own op.2
+      exact ⟨by rw [this], by simp [comp, this], Or.inl hg⟩
+    · rw [hg]; exact ⟨rfl, rfl, Or.inr rfl⟩
+  · simp only [hs]
+    have ho : owner op = some op.1 := by simp [owner, hs]
+    rw [ho] at hc ⊢
+    simp only [comp] at hc
+    rw [← hc, ← had]
+    cases hx : s.insts op.1 with
+    | none =>
+      simp only [Bool.false_eq_true, if_false]
+      have hl := stepNone_local s s' op.1 op.2 hc
+      have f := stepNone_frame s op.1 op.2
+      have f' := stepNone_frame s' op.1 op.2
+      refine ⟨hl.1, by simpa [comp] using hl.2, ?_⟩
+      rcases hg with hg | hg
+      · exact Or.inl hg
+      · exact Or.inr (by rw [f.1, f'.1, hg])
+    | some x =>
+      simp only [Bool.false_eq_true, if_false]
+      rcases hg with hg | hg
+      · have := stepInst_indep c hg s.ad s.g s'.g x op.2
+        exact ⟨by rw [this], by simp [comp, updFn, this], Or.inl hg⟩
+      · rw [hg]; exact ⟨rfl, by simp [comp, updFn], Or.inr rfl⟩
 
-/-- the generalised commutation lemma: two servers that agree on instance `i` (and, when something is shared,
-on the shared cell) answer `i`'s requests alike, whatever is addressed to the others in between. -/
-theorem proj_resps (c : Cfg) (i : Nat) (ops : List (Nat × Req))
-    (hops : c.instancesShareNothing = true ∨ ∀ op ∈ ops, op.1 ≠ i → op.2.noSetting = true) :
-    ∀ (s s' : Server), s.insts[i]? = s'.insts[i]? → (c.instancesShareNothing = true ∨ s.g = s'.g) →
-      respsOf i (resps c s ops) = respsOf i (resps c s' (proj i ops)) := by
+/-- without an adapter, a request without a setting never writes the shared cell -/
+theorem step_g (c : Cfg) (s : Server) (op : Nat × Req) (had : s.ad = false) (h : op.2.noSetting = true) :
+    (step c s op).1.g = s.g := by
+  unfold step
+  by_cases hs : op.2.serverLevel = true
+  · simp only [hs, if_true]; exact stepOwn_g c s.g s.own op.2 h
+  · simp only [hs]
+    cases hx : s.insts op.1 with
+    | none => simp only [Bool.false_eq_true, if_false]; exact (stepNone_frame s op.1 op.2).1
+    | some x => simp only [Bool.false_eq_true, if_false, had]; exact stepInst_g c s.g x op.2 h
+
+/-- the generalised commutation lemma: two servers that agree on owner `t`'s part (and, when something is
+shared, on the shared cell) answer `t`'s requests alike, whatever is addressed to the others in between. -/
+theorem proj_resps (c : Cfg) (t : Option Nat) (ops : List (Nat × Req))
+    (hops : c.instancesShareNothing = true ∨ ∀ op ∈ ops, owner op ≠ t → op.2.noSetting = true) :
+    ∀ (s s' : Server), comp t s = comp t s' → s.ad = s'.ad →
+      (c.instancesShareNothing = true ∨ (s.g = s'.g ∧ s.ad = false)) →
+      respsOf t (resps c s ops) = respsOf t (resps c s' (proj t ops)) := by
   induction ops with
-  | nil => intro s s' _ _; rfl
+  | nil => intro s s' _ _ _; rfl
   | cons op rest ih =>
-    intro s s' hi hg
-    have hrest : c.instancesShareNothing = true ∨ ∀ op ∈ rest, op.1 ≠ i → op.2.noSetting = true := by
+    intro s s' hi had hg
+    have hrest : c.instancesShareNothing = true ∨ ∀ op ∈ rest, owner op ≠ t → op.2.noSetting = true := by
       rcases hops with h | h
       · exact Or.inl h
       · exact Or.inr (fun o ho => h o (List.mem_cons_of_mem _ ho))
-    by_cases hop : op.1 = i
-    · -- addressed to `i`: kept by the projection; same instance state, same answer, same next state
-      have hp : proj i (op :: rest) = op :: proj i rest := by simp [proj, hop]
+    by_cases hop : owner op = t
+    · -- `t`'s own request: kept by the projection; same part, same answer, same next part
+      have hp : proj t (op :: rest) = op :: proj t rest := by simp [proj, hop]
       rw [hp]
       simp only [resps, respsOf, hop, List.filter_cons, beq_self_eq_true, if_true, List.map_cons]
-      have hstep : (step c s op).2 = (step c s' op).2 ∧ (step c s op).1.insts[i]? = (step c s' op).1.insts[i]? ∧
-          (c.instancesShareNothing = true ∨ (step c s op).1.g = (step c s' op).1.g) := by
-        unfold step
-        rw [hop]
-        cases h1 : s.insts[i]? with
-        | none =>
-          rw [h1] at hi; rw [← hi]
-          exact ⟨rfl, by simp [h1, ← hi], hg⟩
-        | some x =>
-          rw [h1] at hi; rw [← hi]
-          have hl : i < s.insts.length := (List.getElem?_eq_some_iff.mp h1).1
-          have hl' : i < s'.insts.length := (List.getElem?_eq_some_iff.mp hi.symm).1
-          rcases hg with hg | hg
-          · have := stepInst_indep c hg s.g s'.g x op.2
-            refine ⟨by simp [this], by simp [List.getElem?_set, hl, hl', this], Or.inl hg⟩
-          · rw [hg]
-            exact ⟨rfl, by simp [List.getElem?_set, hl, hl'], Or.inr rfl⟩
-      rw [hstep.1]
+      subst hop
+      have hg' : c.instancesShareNothing = true ∨ s.g = s'.g := by
+        rcases hg with h | h
+        · exact Or.inl h
+        · exact Or.inr h.1
+      obtain ⟨h1, h2, h3⟩ := step_local c s s' op hi had hg'
+      rw [h1]
       congr 1
-      exact ih hrest _ _ hstep.2.1 hstep.2.2
-    · -- addressed to another instance: dropped by the projection; `i` is untouched
-      have hp : proj i (op :: rest) = proj i rest := by simp [proj, hop]
+      have a1 := (step_other c s op (some (op.1 + 1)) (by
+        simp only [owner]; split <;> simp)).2
+      have a2 := (step_other c s' op (some (op.1 + 1)) (by
+        simp only [owner]; split <;> simp)).2
+      apply ih hrest _ _ h2 (by rw [a1, a2, had])
+      rcases hg with h | h
+      · exact Or.inl h
+      · rcases h3 with h3 | h3
+        · exact Or.inl h3
+        · exact Or.inr ⟨h3, by rw [a1]; exact h.2⟩
+    · -- another owner's request: dropped by the projection; `t`'s part is untouched
+      have hp : proj t (op :: rest) = proj t rest := by simp [proj, hop]
       rw [hp]
-      have hb : (op.1 == i) = false := by simpa using hop
+      have hb : (owner op == t) = false := by simpa using hop
       simp only [resps, respsOf, List.filter_cons, hb]
+      have ho := step_other c s op t hop
       apply ih hrest
-      · rw [step_other c s op i hop]; exact hi
+      · rw [ho.1]; exact hi
+      · rw [ho.2]; exact had
       · rcases hg with hg | hg
         · exact Or.inl hg
         · rcases hops with h | h
           · exact Or.inl h
-          · exact Or.inr (by rw [step_g c s op (h op (List.mem_cons_self) hop)]; exact hg)
+          · refine Or.inr ⟨?_, by rw [ho.2]; exact hg.2⟩
+            rw [step_g c s op hg.2 (h op List.mem_cons_self hop)]; exact hg.1
 
 theorem C16_full_of_good (c : Cfg) (h : c.instancesShareNothing = true) : C16_full c := by
-  intro k ops i
-  exact proj_resps c i ops (Or.inl h) _ _ rfl (Or.inl h)
+  intro k ad ops t
+  exact proj_resps c t ops (Or.inl h) _ _ rfl rfl (Or.inl h)
 
-/-- Whatever the factory shares: an instance is unaffected by everything addressed to the others that carries
-no setting — sessions begun and ended, steps without settings, results, keep-alive, **stop and timeout**. -/
-theorem C16_partial (c : Cfg) (k : Nat) (ops : List (Nat × Req)) (i : Nat)
-    (h : ∀ op ∈ ops, op.1 ≠ i → op.2.noSetting = true) :
-    respsOf i (resps c (Server.init k) ops) = respsOf i (resps c (Server.init k) (proj i ops)) :=
-  proj_resps c i ops (Or.inr h) _ _ rfl (Or.inr rfl)
+/-- Whatever the factory shares (no adapter configured): an owner is unaffected by everything addressed to the
+others that carries no setting — instances created, sessions begun and ended, steps without settings, results,
+keep-alive, `/equations`, `/agents`, `/run` without settings, **stop and timeout**. -/
+theorem C16_partial (c : Cfg) (k : Nat) (ops : List (Nat × Req)) (t : Option Nat)
+    (h : ∀ op ∈ ops, owner op ≠ t → op.2.noSetting = true) :
+    respsOf t (resps c (Server.init k) ops) = respsOf t (resps c (Server.init k) (proj t ops)) :=
+  proj_resps c t ops (Or.inr h) _ _ rfl rfl (Or.inr ⟨rfl, rfl⟩)
 
-/-- stop and timeout are local (instance of `C16_partial`, stated on its own as in the property). -/
-theorem C16_stop_timeout_local (c : Cfg) (k : Nat) (ops : List (Nat × Req)) (i : Nat)
-    (h : ∀ op ∈ ops, op.1 ≠ i → (op.2 = .stop ∨ op.2 = .expire)) :
-    respsOf i (resps c (Server.init k) ops) = respsOf i (resps c (Server.init k) (proj i ops)) := by
+/-- stop, timeout and creation are local (instance of `C16_partial`, stated on its own as in the property). -/
+theorem C16_stop_timeout_local (c : Cfg) (k : Nat) (ops : List (Nat × Req)) (t : Option Nat)
+    (h : ∀ op ∈ ops, owner op ≠ t → (op.2 = .stop ∨ op.2 = .expire ∨ op.2 = .create)) :
+    respsOf t (resps c (Server.init k) ops) = respsOf t (resps c (Server.init k) (proj t ops)) := by
   apply C16_partial
   intro op ho hne
-  rcases h op ho hne with h | h <;> simp [h, Req.noSetting]
+  rcases h op ho hne with h | h | h <;> simp [h, Req.noSetting]
+
+/-- Two requests of different owners commute when nothing is shared: each gets the same response in either
+order, and both orders leave every owner's part of the server, the shared cell and the adapter flag the same.
+(Request-handler granularity: what two handlers running concurrently for different instances may do, as long as
+each handler is atomic, equals the sequential result in either order.) -/
+theorem C16_commute (c : Cfg) (h : c.instancesShareNothing = true) (s : Server) (a b : Nat × Req)
+    (hab : owner a ≠ owner b) :
+    (step c (step c s b).1 a).2 = (step c s a).2 ∧
+    (step c (step c s a).1 b).2 = (step c s b).2 ∧
+    (∀ t, comp t (step c (step c s a).1 b).1 = comp t (step c (step c s b).1 a).1) ∧
+    (step c (step c s a).1 b).1.ad = (step c (step c s b).1 a).1.ad := by
+  have ob := step_other c s b (owner a) (Ne.symm hab)
+  have oa := step_other c s a (owner b) hab
+  have la := step_local c (step c s b).1 s a ob.1 ob.2 (Or.inl h)
+  have lb := step_local c (step c s a).1 s b oa.1 oa.2 (Or.inl h)
+  refine ⟨la.1, lb.1, ?_, ?_⟩
+  · intro t
+    by_cases ha : owner a = t
+    · subst ha
+      rw [(step_other c (step c s a).1 b (owner a) (Ne.symm hab)).1, la.2.1]
+    · by_cases hb : owner b = t
+      · subst hb
+        rw [(step_other c (step c s b).1 a (owner b) hab).1, lb.2.1]
+      · rw [(step_other c (step c s a).1 b t hb).1, (step_other c s a t ha).1,
+            (step_other c (step c s b).1 a t ha).1, (step_other c s b t hb).1]
+  · rw [(step_other c (step c s a).1 b (some (b.1 + a.1 + 1)) (by simp only [owner]; split <;> simp <;> omega)).2,
+        (step_other c s a (some (b.1 + a.1 + 1)) (by simp only [owner]; split <;> simp <;> omega)).2,
+        (step_other c (step c s b).1 a (some (b.1 + a.1 + 1)) (by simp only [owner]; split <;> simp <;> omega)).2,
+        (step_other c s b (some (b.1 + a.1 + 1)) (by simp only [owner]; split <;> simp <;> omega)).2]
 
 /-- Negation witness for a factory whose products share a cell: a setting applied through instance 0 changes
 the step instance 1 returns. -/
 theorem C16_witness_shared (c : Cfg) (h : c.instancesShareNothing = false) : ¬ C16_full c := by
   intro hf
-  have := hf 2 [(0, .beginSession), (1, .beginSession), (0, .runStep (some 5)), (1, .runStep none), (1, .runStep none)] 1
+  have := hf 2 false [(0, .beginSession none), (1, .beginSession none), (0, .runStep (some 5)), (1, .runStep none),
+    (1, .runStep none)] (some 1)
   cases c; simp only at h; subst h
   revert this; decide
 
-/-- Non-vacuity: three instances, interleaved sessions with different settings, a stop and a timeout. -/
+/-- same mechanism through the begin-session settings, an instance created during the history, and the
+server-level `/run`: its settings reach the instance. -/
+theorem C16_witness_shared_run (c : Cfg) (h : c.instancesShareNothing = false) : ¬ C16_full c := by
+  intro hf
+  have := hf 0 true [(3, .create), (3, .beginSession (some 2)), (0, .run (some 7)), (3, .runStep none)] (some 3)
+  cases c; simp only at h; subst h
+  revert this; decide
+
+/-- Non-vacuity: three instances plus one created during the history, an adapter, interleaved sessions with
+different settings (begin-session and run-step), `/run` with a setting in between, a stop, a timeout followed by
+the lazy restoration of the timed-out instance. -/
 example :
-    respsOf 1 (resps ⟨true⟩ (Server.init 3)
-      [(0, .beginSession), (1, .beginSession), (0, .runStep (some 7)), (1, .runStep (some 2)), (2, .beginSession),
-       (0, .runStep none), (2, .stop), (1, .runStep none), (0, .expire), (1, .results), (0, .keepAlive), (1, .endSession)])
-    = [some .started, some (.stepped 0 0 2), some (.stepped 1 2 2), some (.results [(0, 0), (1, 2)]), some .ended] := by
+    respsOf (some 1) (resps ⟨true⟩ (Server.initAd 3 true)
+      [(0, .beginSession none), (1, .beginSession (some 4)), (0, .runStep (some 7)), (1, .runStep (some 2)), (2, .beginSession none),
+       (5, .create), (0, .run (some 9)), (0, .runStep none), (2, .stop), (1, .runStep none), (1, .expire), (5, .beginSession (some 3)),
+       (1, .results), (0, .keepAlive), (1, .runStep none), (1, .endSession), (0, .equations)])
+    = [some .started, some (.stepped 0 0 2), some (.stepped 1 2 2), some .swept, some (.results [(0, 0), (1, 2)]),
+       some (.stepped 2 4 2), some .ended] := by
   decide
 
 #print axioms C16_full_of_good
 #print axioms C16_partial
 #print axioms C16_stop_timeout_local
+#print axioms C16_commute
 #print axioms C16_witness_shared
+#print axioms C16_witness_shared_run
 
 end Bptk.C16
